@@ -57,6 +57,11 @@ func main() {
 		}
 		exe, _ := os.Executable()
 		os.Exit(eng.RunSelftest(verifDir, repoDir, prop, exe))
+	case "sweep":
+		if len(os.Args) < 4 {
+			usage()
+		}
+		os.Exit(eng.RunSweep(repoDir, verifDir, os.Args[2], os.Args[3]))
 	case "warmup":
 		os.Exit(eng.Warmup(repoDir))
 	case "replay":
